@@ -56,7 +56,7 @@ class C10(PoolCheck):
             env.cleanup()
 
     def n_cases(self, tier):
-        return 4000 if tier == 'quick' else 150000
+        return 4000 if tier == 'quick' else 300000
 
     def gen_case(self, rng, index):
         key = rng.choice(self.keys)
